@@ -89,7 +89,7 @@ def require(lab, name, claim, law, twin=None, signature='kernel', impl=None, spe
         chk.obligation(full, engine, 'holds', v.seconds, nontriv, {'law': [law[0]] + [S.show(p) for p in law[1:]], 'n': lab.n, 'colour_bits': lab.c, 'verdict': 'unsat'})
         return True
     if v.status != 'sat':
-        chk.obligation(full, engine, 'inconclusive', v.seconds); return False
+        chk.obligation(full, engine, 'timeout', v.seconds); return False
     # counterexample -> concrete network of one colour
     w = None
     if impl is not None and spec is not None: diff = impl ^ spec
